@@ -14,6 +14,7 @@ from ._helpers_rules_c import (
     PathSense, both, call_nodes, calls_ending, cut_edges, is_false, is_true, kw_or_pos, must_pass, own_calls,
     test_edges,
 )
+from ._helpers_str_l import assignments, branch_atoms, consistent_ok, describe_facts
 
 R = Registry(
     "C28",
@@ -233,8 +234,18 @@ def r2(ctx):
         "propagate": call_nodes(g, lambda nm, c: nm in ("self.propagate.discard", "self.propagate.remove")),
         "registry": call_nodes(g, lambda nm, c: nm.endswith("_removed_from_collection")),
     }
+    # the same three updates done by a helper of the event key (`event_key.remove_from_list(self, self.listeners)`):
+    # each helper is read once and credited with what it does, on every normal path, to the arguments it was given
+    via = {}
+    for n in g.nodes:
+        for c in own_calls(n):
+            for what in _key_helper_effects(ctx, f, c):
+                need[what].append(n.id)
+                via[what] = call_name(c)
     miss = [k for k, v in need.items() if not v or must_pass(g, [g.entry], [g.exit], v, edge_ok=no_exc)]
-    ctx.check(not miss, f.key, f"remove() leaves the listener in: {miss}", "listeners, propagate and registry all updated", f.loc)
+    ctx.check(not miss, f.key, f"remove() leaves the listener in: {miss}"
+              + (f" ({', '.join(sorted(set(via.values())))}() takes care of {sorted(via)} only)" if via and miss else ""),
+              "listeners, propagate and registry all updated", f.loc)
     f = ctx.method(lc.key, "clear")
     g = ctx.cfg(f)
     need = {
@@ -268,6 +279,43 @@ def r2(ctx):
                 good = False
         ctx.check(good, f.key, f"{name} does not {op}() self._listen_fn exactly when _stored_in_collection() accepted the key",
                   f"{op} under `_stored_in_collection(self, owner)`", f.loc)
+
+
+def _key_helper_effects(ctx, f, call):
+    """Which of {'listeners','propagate','registry'} a call `<event_key>.<helper>(...)` inside an instance-level
+    collection method takes care of.  The helper (a method of registry._EventKey) is analysed with its own
+    parameters bound to the argument expressions of the call: `<param>.remove/discard(self._listen_fn)` counts for
+    the collection attribute passed as <param>, `_removed_from_collection(self, <param>)` counts when <param> is
+    the collection itself.  Only effects on every normal path of the helper count."""
+    fn = call.func
+    if not (isinstance(fn, ast.Attribute) and isinstance(fn.value, ast.Name) and len(f.params) > 1 and fn.value.id == f.params[1]):
+        return []
+    ek = ctx.index.cls(f"{REG}::_EventKey")
+    h = ctx.index.resolve_method(ek, fn.attr)
+    if h is None or h.node.args.vararg or h.node.args.kwarg:
+        return []
+    ctx.functions_analysed.add(h.key)
+    bound = {}
+    for p, a in zip(h.params[1:], call.args):
+        bound[p] = dotted(a)
+    for k in call.keywords:
+        if k.arg:
+            bound[k.arg] = dotted(k.value)
+    gh = ctx.cfg(h)
+    out = []
+    slots = {"self.listeners": "listeners", "self.propagate": "propagate"}
+    for p, a in bound.items():
+        if a in slots:
+            nodes = call_nodes(gh, lambda nm, c, p=p: nm in (f"{p}.remove", f"{p}.discard")
+                               and len(c.args) == 1 and dotted(c.args[0]) == "self._listen_fn")
+            if nodes and must_pass(gh, [gh.entry], [gh.exit], nodes, edge_ok=no_exc) is None:
+                out.append(slots[a])
+    owners = [p for p, a in bound.items() if a == "self"]
+    nodes = call_nodes(gh, lambda nm, c: nm.split(".")[-1] == "_removed_from_collection" and len(c.args) == 2
+                       and dotted(c.args[0]) == "self" and dotted(c.args[1]) in owners)
+    if nodes and must_pass(gh, [gh.entry], [gh.exit], nodes, edge_ok=no_exc) is None:
+        out.append("registry")
+    return out
 
 
 def _preds_closure(g, n):
